@@ -510,11 +510,32 @@ def has_delim_content(specs):
     return False
 
 
+class _Resign:
+    """route every violation of one case to a single signature (used where the cause is known by construction)"""
+    def __init__(self, ctx, sig):
+        self._ctx, self._sig = ctx, sig
+    def violation(self, sig, case, detail):
+        self._ctx.violation(self._sig, case, f"[{sig}] {detail}")
+    def __getattr__(self, k):
+        return getattr(self._ctx, k)
+
+
+def _lf_prefix(sps, b):
+    for sp in sps:
+        if sp.nested:
+            if _lf_prefix(sp.nested[2], sp.nested[0]): return True
+        elif (b"\n--" + b.encode()) in b"\n" + sp.content and (b"\r\n--" + b.encode()) not in b"\r\n" + sp.content:
+            return True
+    return False
+
+
 def one_roundtrip(ctx, loop, case, compare_lines):
     """case: dict(boundary, subtype, specs(json), segs(hex list) or seg params, script, ...). Runs writer+reader on
     the real code, applies the direct oracle, and queues the model lines for comparison."""
     boundary, subtype = case["boundary"], case["subtype"]
     specs = specs_from_json(case["specs"])
+    if any(a[0] == "L" for a in case["script"]) and _lf_prefix(specs, boundary):
+        ctx = _Resign(ctx, "C19/roundtrip/readline-bare-lf-before-boundary-prefix")
     flat = not any(sp.nested for sp in specs)
     try:
         mw, built = build_writer(boundary, subtype, specs)
@@ -734,22 +755,238 @@ def check_mutations(ctx, loop):
     flush_compare(ctx, lines)
 
 
-def check(ctx):
-    loop = asyncio.new_event_loop()
+# ------------------------------------------------------------------------------ fixed probes (one per recorded finding)
+def _rt(boundary, specs, script, subtype="mixed", cuts=None, seg_style="whole", **kw):
+    c = {"kind": "rt", "boundary": boundary, "subtype": subtype, "specs": specs_to_json(specs), "script": script, "descend": True,
+         "prefed": 0, "eof_with_last": False, "seg_style": seg_style, "seg_seed": 1, "cuts": cuts}
+    c.update(kw)
+    return c
+
+
+def fixed_probes():
+    P = PartSpec
+    return [
+        # base64 part delivered one byte per segment: read_chunk hands out chunks that are not whole quartets
+        _rt("b", [P(content=b"hello world!", te="base64", headers=[("Content-Transfer-Encoding", "base64")])], [["C", [8192]]], seg_style="tiny"),
+        # an empty nested multipart written by MultipartWriter cannot be read back
+        _rt("b", [P(nested=("inner", "mixed", [])), P(content=b"x")], [["R"]]),
+        # leading / or \ of a field name / file name is stripped by the reader
+        _rt("b", [P(content=b"x", disp=("form-data", False, {"name": "/a"}))], [["R"]], subtype="form-data"),
+        _rt("b", [P(content=b"x", disp=("form-data", False, {"name": "n", "filename": "\\a"}))], [["R"]], subtype="form-data"),
+        # two semicolons in a parameter value defeat parse_content_disposition
+        _rt("b", [P(content=b"x", disp=("form-data", True, {"name": "a;b;c"}))], [["R"]], subtype="form-data"),
+        # readline API: a content line that starts with the boundary after a bare LF
+        _rt("b", [P(content=b"a\n--b\nc"), P(content=b"second")], [["L"]]),
+        _rt("b", [P(content=b"a\n--bxyz\nc"), P(content=b"second")], [["L"]]),
+        # readline API on a body truncated inside a part
+        {"kind": "trunc", "boundary": "b", "subtype": "mixed", "specs": specs_to_json([P(content=b"line1\r\nline2")]), "cut_at": -12,
+         "script": [["L"]]},
+    ]
+
+
+def one_trunc(ctx, loop, case, compare_lines):
+    specs = specs_from_json(case["specs"])
+    mw, _ = build_writer(case["boundary"], case["subtype"], specs)
+    wire = write_all(loop, mw)[:case["cut_at"]]
+    script = [tuple(a) for a in case["script"]]
+    ev, parts, steps, err, rd = run_reader(loop, [wire], case["boundary"], case["subtype"], script=script)
+    ctx.hit("trunc:" + (err or "END"))
+    if err == "STUCK":
+        ctx.violation("C19/termination/readline-never-reaches-eof-on-truncated-part", case,
+                      "BodyPartReader.readline() keeps returning b'' at stream EOF without setting at_eof or raising: "
+                      "`while not part.at_eof(): await part.readline()` never ends")
+    elif err == "LOOP":
+        ctx.violation("C19/termination/step-bound-exceeded", case, "step bound exceeded")
+    compare_lines.append((rd_line([wire], case["boundary"], case["subtype"], script=script), ev, case, "truncated body vs Aio.C19.drive"))
+
+
+def check_probes(ctx, loop):
+    lines = []
+    for case in fixed_probes():
+        run_case(ctx, loop, case, lines)
+        ctx.case(("probe", json.dumps(case, sort_keys=True)))
+    flush_compare(ctx, lines)
+
+
+def run_case(ctx, loop, case, lines):
+    k = case.get("kind")
+    if k == "rt":
+        fill_cuts(case, loop)
+        one_roundtrip(ctx, loop, case, lines)
+    elif k == "mut":
+        one_mutation(ctx, loop, case, lines)
+    elif k == "trunc":
+        one_trunc(ctx, loop, case, lines)
+    elif k == "limit":
+        one_limit(ctx, loop, case)
+    elif k == "post":
+        one_post(ctx, loop, case)
+
+
+# ------------------------------------------------------------------------------ limits are enforced while reading
+def one_limit(ctx, loop, case):
+    """a body that exceeds one limit by far, delivered lazily in `seg`-byte segments: the reader must give up (with the
+    right error) after having been fed little more than the limit - not after the oversized item has been buffered"""
+    what, seg, n = case["what"], case["seg"], case["n"]
+    head = b"--b\r\nContent-Type: text/plain\r\n"
+    kw = dict(script=[("R",)], max_field=8190, max_headers=128, max_size=2 ** 62, limit=2 ** 16)
+    if what == "field":
+        wire = head + b"X-Long: " + b"a" * n + b"\r\n\r\nbody\r\n--b--\r\n"
+        kw["max_field"] = case["limit_value"]; expect = "E_LINE"; allowed = len(head) + case["limit_value"]
+    elif what == "headers":
+        wire = head + b"x: y\r\n" * n + b"\r\nbody\r\n--b--\r\n"
+        kw["max_headers"] = case["limit_value"]; expect = "E_BADMSG"; allowed = len(head) + 6 * (case["limit_value"] + 1)
+    elif what == "size-read":
+        wire = head + b"\r\n" + b"z" * n + b"\r\n--b--\r\n"
+        kw["max_size"] = case["limit_value"]; expect = "E_SIZE"; allowed = len(head) + 2 + case["limit_value"] + 3 * 8192
+    elif what == "preamble-line":
+        wire = b"p" * n + b"\r\n" + head + b"\r\nbody\r\n--b--\r\n"
+        kw["limit"] = case["limit_value"]; expect = "E_LINE"; allowed = 2 * case["limit_value"]
+    else:
+        raise AssertionError(what)
+    segs = [wire[i:i + seg] for i in range(0, len(wire), seg)]
+    ev, parts, steps, err, rd = run_reader(loop, segs, "b", "mixed", **kw)
+    ctx.hit(f"limit:{what}:{err}")
+    got = (err or "END").split("@")[0]
+    if got != expect:
+        ctx.violation(f"C19/limits/{what}/not-enforced", case, f"expected {expect}, reader ended with {err or 'END'}")
+    elif rd.fed_bytes > allowed + 2 * seg:
+        ctx.violation(f"C19/limits/{what}/enforced-only-after-buffering", case,
+                      f"{rd.fed_bytes} bytes had been fed when {expect} was raised; the limit allows about {allowed} (+2 segments of {seg})")
+    line = rd_line(segs, "b", "mixed", **kw)
+    return line, ev
+
+
+def check_limits(ctx, loop):
+    rng = ctx.rng
+    lines = []
+    for i in range(24 if ctx.quick else 200):
+        what = ["field", "headers", "size-read", "preamble-line"][i % 4]
+        lv = {"field": rng.choice([100, 8190]), "headers": rng.choice([3, 128]), "size-read": rng.choice([10, 10000, 70000]),
+              "preamble-line": rng.choice([1000, 65536])}[what]
+        n = {"field": 6 * lv + 30000, "headers": 10 * lv + 500, "size-read": 3 * lv + 60000, "preamble-line": 4 * lv + 20000}[what]
+        case = {"kind": "limit", "what": what, "seg": rng.choice([100, 1000, 4096]), "n": n, "limit_value": lv}
+        line, ev = one_limit(ctx, loop, case)
+        lines.append((line, ev, case, "limits vs Aio.C19.drive"))
+        ctx.case(("limit", what, case["seg"], n, lv))
+    flush_compare(ctx, lines)
+
+
+# ------------------------------------------------------------------------------ FormData -> BaseRequest.post()
+def one_post(ctx, loop, case):
+    from aiohttp import FormData
+    from aiohttp.test_utils import make_mocked_request
+    from aiohttp.web_exceptions import HTTPRequestEntityTooLarge
+    from aiohttp.web_request import FileField
+    fields = case["fields"]
+    fd = FormData(quote_fields=case["quote_fields"], default_to_multipart=True)
+    for f in fields:
+        val = bytes.fromhex(f["hex"]) if f["bytes"] else f["text"]
+        fd.add_field(f["name"], val, filename=f.get("filename"), content_type=f.get("ctype"))
     try:
-        check_roundtrips(ctx, loop)
-        check_mutations(ctx, loop)
+        mw = fd()
+        wire = write_all(loop, mw)
+    except (AssertionError, ValueError, TypeError) as e:
+        ctx.hit("post:writer-refuses"); return
+    if mw.size is not None and mw.size != len(wire):
+        ctx.violation("C19/size/declared-differs-from-written", case, f"FormData: size={mw.size}, wrote {len(wire)}")
+    seg = case["seg"]
+    segs = [wire[i:i + seg] for i in range(0, len(wire), seg)]
+    sr = io19.make_stream(loop, 2 ** 16, 16 * len(wire) + 4096)
+    cms = case["client_max_size"]
+    out = {}
+
+    async def main():
+        req = make_mocked_request("POST", "/", headers={"Content-Type": mw.content_type}, payload=sr, client_max_size=cms)
+        try:
+            out["post"] = await req.post()
+        except HTTPRequestEntityTooLarge:
+            out["err"] = "too-large"
+        except io19.StepLimit:
+            out["err"] = "LOOP"
+        except Exception as e:
+            out["err"] = type(e).__name__ + ": " + str(e)[:80]
+
+    _, fed = loop.run_until_complete(io19.lazily_fed(sr, segs, 0, False, main()))
+    ctx.hit("post:" + out.get("err", "ok").split(":")[0])
+    if out.get("err") == "LOOP":
+        ctx.violation("C19/termination/step-bound-exceeded", case, "post() exceeded the step bound"); return
+    if 0 < cms < len(wire):
+        if out.get("err") != "too-large":
+            ctx.violation("C19/limits/post/not-enforced", case, f"body of {len(wire)} bytes with client_max_size={cms}: {out.get('err', 'accepted')}")
+        elif fed > cms + 3 * 8192 + 2 * seg:
+            ctx.violation("C19/limits/post/enforced-only-after-buffering", case, f"{fed} bytes fed before 413, client_max_size={cms}")
+        return
+    if "err" in out:
+        if any(";" in (f["name"] + (f.get("filename") or "")) for f in fields):
+            ctx.violation("C19/roundtrip/disposition-param-with-semicolon", case, f"post() failed: {out['err']}")
+        else:
+            ctx.violation("C19/roundtrip/post-error", case, f"post() failed: {out['err']}")
+        return
+    got = list(out["post"].items())
+    if len(got) != len(fields):
+        ctx.violation("C19/roundtrip/post-field-count", case, f"{len(fields)} fields written, {len(got)} read"); return
+    for f, (k, v) in zip(fields, got):
+        exp = bytes.fromhex(f["hex"]) if f["bytes"] else f["text"]
+        if isinstance(v, FileField):
+            data = v.file.read(); fn = v.filename
+            ok = data == (exp if f["bytes"] else exp.encode()) and (fn == f.get("filename") or unquote(fn) == f.get("filename"))
+        elif isinstance(v, (bytes, bytearray)):
+            ok = bytes(v) == exp
+        else:
+            ok = v == exp if not f["bytes"] else v.encode() == exp
+        names_ok = k == f["name"] or unquote(k) == f["name"]
+        if not (ok and names_ok):
+            hard = f["name"] + (f.get("filename") or "")
+            if ";" in hard:
+                sig = "C19/roundtrip/disposition-param-with-semicolon"
+            elif f["name"][:1] in "/\\" or (f.get("filename") or "")[:1] in ("/", "\\"):
+                sig = "C19/roundtrip/name-leading-slash-stripped"
+            else:
+                sig = "C19/roundtrip/post-field-differs"
+            ctx.violation(sig, case, f"field {f['name']!r} filename={f.get('filename')!r}: read back as {k!r} / {str(v)[:60]!r}")
+
+
+def check_posts(ctx, loop):
+    rng = ctx.rng
+    for i in range(120 if ctx.quick else 2500):
+        fields = []
+        for _ in range(rng.randint(1, 4)):
+            isb = rng.random() < 0.5
+            n = rng.choice([0, 1, 5, 100, 8191, 8192, 8193, 20000])
+            f = {"name": gen_name(rng, hard=rng.random() < 0.1), "bytes": isb}
+            if isb:
+                f["hex"] = gen_content(rng, "zzzzzzzzzzzzzzzzzzzzzzzzzzzzzzzzzzzzzzzz", n).hex()
+                if rng.random() < 0.7:
+                    f["filename"] = gen_name(rng, hard=rng.random() < 0.1)
+                f["ctype"] = rng.choice([None, "application/octet-stream", "image/png"])
+            else:
+                f["text"] = "".join(rng.choice("ab \r\n-é€=&%+") for _ in range(min(n, 300))).replace("\r", "").replace("\n", "\r\n")
+                f["ctype"] = rng.choice([None, None, "text/plain; charset=utf-8"])
+            fields.append(f)
+        case = {"kind": "post", "fields": fields, "quote_fields": rng.random() < 0.7, "seg": rng.choice([1000, 4096, 8192, 100000]),
+                "client_max_size": rng.choice([0, 2 ** 30, 2 ** 30, 1000, 10000])}
+        one_post(ctx, loop, case)
+        ctx.case(("post", json.dumps(case, sort_keys=True)))
+
+
+def check(ctx):
+    import time
+    loop = asyncio.new_event_loop()
+    asyncio.set_event_loop(loop)
+    try:
+        for f in (check_probes, check_roundtrips, check_mutations, check_limits, check_posts):
+            t = time.time()
+            f(ctx, loop)
+            ctx.extra.setdefault("section_seconds", {})[f.__name__] = round(time.time() - t, 1)
     finally:
         loop.close()
 
 
 def replay(ctx, case):
     loop = asyncio.new_event_loop()
+    asyncio.set_event_loop(loop)
     try:
-        if case.get("kind") == "rt":
-            fill_cuts(case, loop)
-            one_roundtrip(ctx, loop, case, [])
-        elif case.get("kind") == "mut":
-            one_mutation(ctx, loop, case, [])
+        run_case(ctx, loop, case, [])
     finally:
         loop.close()
